@@ -534,10 +534,15 @@ def build_val(v):
         return val.Some(*vs(v[1]))
     if k == "none":
         return val.None_(*ts(v[1]))
+    # Left/Right take Iterables: lists, tuples and one-shot iterators must all work (chosen by the shape of
+    # the term, so the same term always gets the same kind of argument)
+    def it(l, salt):
+        m = (len(v[1]) * 3 + len(v[2]) + salt) % 4
+        return l if m == 0 else tuple(l) if m == 1 else iter(l) if m == 2 else (x for x in l)
     if k == "left":
-        return val.Left(vs(v[1]), ts(v[2]))
+        return val.Left(it(vs(v[1]), 0), it(ts(v[2]), 1))
     if k == "right":
-        return val.Right(ts(v[1]), vs(v[2]))
+        return val.Right(it(ts(v[1]), 1), it(vs(v[2]), 0))
     if k == "func":
         return val.Function(build_func_body(v[1], v[2], v[3]))
     if k == "ext":
